@@ -239,6 +239,11 @@ def run(ctx):
                  "points into the queried object / caller-owned memory" if why is None else "the returned pointer refers to %s" % why, nontrivial=False)
     if n6 < 6:
         raise AnalysisBroken("C API string getters: only %d returns analysed" % n6)
+    # occaJsonObjectSet stores through json::operator[], occaJsonObjectGet / occaJsonObjectHas answer through json::has: what was stored
+    # under a key is read back only if all path walkers split the key the same way (shared with C25)
+    from rules import c25
+    from vlib.refile import refile
+    refile(ctx, c25, {"C25-R1": "C29-R7"}, "C25")
 
 
 META = {
